@@ -3,7 +3,9 @@
 #   tools/intake.py C04            (looks for seed_a.diff/seed_b.diff, demo_*.py, NOTES.md)
 import json, os, re, shutil, subprocess, sys, tempfile, xml.etree.ElementTree as ET
 pid = sys.argv[1]
-wt = f'/tmp/seed-{pid}'
+rnd = int(sys.argv[2]) if len(sys.argv) > 2 else 1
+wt = f'/tmp/seed-{pid}' if rnd == 1 else f'/tmp/seed{rnd}-{pid}'
+NAME = {1: {'a': 'a', 'b': 'b'}, 2: {'a': 'c', 'b': 'd'}, 3: {'a': 'e', 'b': 'f'}}[rnd]
 base = json.load(open('/root/.vp/BASELINE.json'))
 want = set(base['stable_pass'])
 
@@ -36,14 +38,14 @@ for v in ('a', 'b'):
     regress = suite(wt)
     sh(f'git -C {wt} checkout -- gemato utils')
     ok = clean.returncode == 0 and broken.returncode != 0 and not regress
-    print(f'{pid}-{v}: demo clean rc={clean.returncode}, with change rc={broken.returncode}, '
+    print(f'{pid}-{NAME[v]}: demo clean rc={clean.returncode}, with change rc={broken.returncode}, '
           f'stable tests lost: {len(regress)} -> {"CONFIRMED" if ok else "REJECTED"}')
     if not ok:
         print('   ', (clean.stdout + clean.stderr)[-300:], (broken.stdout + broken.stderr)[-300:], regress[:3]); continue
-    d = f'/verif/seeded/{pid}-{v}'
+    d = f'/verif/seeded/{pid}-{NAME[v]}'
     os.makedirs(d, exist_ok=True)
     shutil.copy(diff, os.path.join(d, 'patch.diff')); shutil.copy(demo, os.path.join(d, 'demo.py'))
-    meta = {'id': f'{pid}-{v}', 'property': pid, 'run_checks': [pid],
+    meta = {'id': f'{pid}-{NAME[v]}', 'property': pid, 'run_checks': [pid],
             'author': 'independent sub-agent (property text + scratch worktree only)',
             'needs': '', 'notes': notes,
             'confirmed': {'demo_on_unchanged_tree': 'exit 0', 'demo_with_change': f'exit {broken.returncode}: ' + (broken.stdout + broken.stderr).strip()[-300:],
